@@ -55,6 +55,10 @@ class Report:
         for kf in self.known:
             if kf.get('status') == 'known' and kf.get('obligation') == obligation:
                 self.known_hit.append((kf, obligation)); return None
+        if isinstance(native_msg, dict) and native_msg.get('skipped'):
+            self.suppressed = getattr(self, 'suppressed', 0) + 1
+            self.notes.append('refuted as well (no separate replay): %s' % obligation) if len(self.notes) < 40 else None
+            return None
         os.makedirs(os.path.join(VERIF, 'replay'), exist_ok=True)
         h = hashlib.sha256((obligation + json.dumps(case, sort_keys=True, default=str)).encode()).hexdigest()[:10]
         safe = ''.join(c if c.isalnum() or c in '-_.' else '_' for c in obligation)[:80]
@@ -72,10 +76,11 @@ class Report:
         return r
     def export(self):
         return dict(obls=self.obls, bounded=self.bounded, violations=self.violations, undecided=self.undecided, errors=self.errors, covers=self.covers,
-                    canaries=self.canaries, samples=self.samples, known_hit=self.known_hit, notes=self.notes, not_decided=self.not_decided)
+                    canaries=self.canaries, samples=self.samples, known_hit=self.known_hit, notes=self.notes, not_decided=self.not_decided, suppressed=getattr(self, 'suppressed', 0))
     def merge(self, d):
         for k in ('obls', 'bounded', 'violations', 'undecided', 'errors', 'covers', 'canaries', 'known_hit', 'notes', 'not_decided'):
             getattr(self, k).extend(d.get(k, []))
+        self.suppressed = getattr(self, 'suppressed', 0) + d.get('suppressed', 0)
         for s_ in d.get('samples', []):
             if len(self.samples) < 12: self.samples.append(s_)
     # ---- finishing
@@ -99,7 +104,7 @@ class Report:
                         explanation='contract-based deductive verification of the real source by symbolic re-execution (pyvc); see DESIGN.md')
         ev = dict(property_id=self.prop, tier=self.tier, seed=int(self.seed), level=self.level, coverage=coverage,
                   assumptions=[('%s: %s' % (k, ASSUMPTIONS[k]) if k in ASSUMPTIONS else k) for k in (self.assumptions + self.trusted)],
-                  wall_s=round(time.time() - self.t0, 2), violations=len(self.violations))
+                  wall_s=round(time.time() - self.t0, 2), violations=len(self.violations) + getattr(self, 'suppressed', 0))
         os.makedirs(os.path.join(VERIF, 'evidence'), exist_ok=True)
         json.dump(ev, open(os.path.join(VERIF, 'evidence', '%s.json' % self.prop), 'w'), indent=1, default=str)
         for kf, ob in self.known_hit:
@@ -111,7 +116,8 @@ class Report:
         print('%s [%s]: %d obligations, %d discharged %s, %d bounded stand-ins, %d violations, %d undecided, %d errors, %.1fs' % (
             self.prop, self.tier, n, d, by_backend, len(self.bounded), len(self.violations), len(self.undecided), len(self.errors), time.time() - self.t0))
         for e in self.errors: print('ENGINE-ERROR property=%s %s' % (self.prop, e))
-        if self.violations: return 1
+        if getattr(self, 'suppressed', 0): print('  (+%d further refuted obligations not replayed separately; see evidence notes)' % self.suppressed)
+        if self.violations or getattr(self, 'suppressed', 0): return 1
         if self.errors: return 3
         if self.undecided:
             for u in self.undecided: print('UNDECIDED property=%s obligation=%s reason=%s' % (self.prop, u['obligation'], u['reason']))
@@ -129,6 +135,17 @@ def _load_known(prop):
         return [f for f in json.load(open(p)).get('findings', []) if f.get('property') == prop]
     except Exception:
         return []
+
+import multiprocessing as _mp
+REPLAY_BUDGET = _mp.Value('i', int(os.environ.get('PYVC_REPLAY_BUDGET', '10')))      # shared by forked workers
+
+def replay_native(module, case, timeout=300):
+    """replay one counterexample natively unless the per-run replay budget is spent (a broken tree can refute thousands of obligations)"""
+    with REPLAY_BUDGET.get_lock():
+        if REPLAY_BUDGET.value <= 0: return None, dict(skipped='replay budget for this run exhausted')
+        REPLAY_BUDGET.value -= 1
+    rc, o, so, se = run_native(module, ['replay'], case, timeout=timeout)
+    return (bool(o and o.get('reproduced')) if o is not None else None), (o if o is not None else dict(error=(so + se)[-600:]))
 
 def run_native(module, args, input_obj=None, timeout=600):
     """run /verif/<module> under the runtime interpreter (real numpy/numba/estraces, scared from /repo)"""
